@@ -16,10 +16,10 @@
    The module states the IDEAL behaviour; the constant Devs switches on named as-built
    deviations (used by the non-vacuity controls, by the generator's alternative worlds and by the
    trace specification):
-     "ErrStop"   the first failing key ends the round, later keys are not attempted
-     "Stale"     Commit re-publishes the VALUE read at Pick through Publish(), i.e. computes the
+     Dev_X03_ErrStop          the first failing key ends the round, later keys are not attempted
+     Dev_X03_StaleRepublish   Commit re-publishes the VALUE read at Pick through Publish(), i.e. computes the
                  new record from the unlocked snapshot instead of the record current under the lock
-     "TTLReset"  the republished record carries the default TTL instead of the record's TTL      *)
+     Dev_X03_TTLReset         the republished record carries the default TTL instead of the record's TTL      *)
 EXTENDS Integers, Sequences, FiniteSets, TLC
 
 CONSTANTS Keys, Self,          \* key ids, Self = the node's own key (always republished first)
@@ -28,6 +28,7 @@ CONSTANTS Keys, Self,          \* key ids, Self = the node's own key (always rep
           L,                   \* Republisher.RecordLifetime
           Interval, Initial, FailRetry,
           MaxT, MaxSeq, MaxOps, MaxRounds,
+          TrackW0,             \* TRUE: remember the state a round started from (ghost, for SeqRoundMatches only)
           UseRun,              \* TRUE: rounds are started by Run's timer; FALSE: direct republishEntries calls
           Timely,              \* TRUE: the clock cannot pass a due timer / a round in progress (fake-clock semantics)
           Devs
@@ -42,6 +43,10 @@ svars == <<running, cancelled, exited, timer>>
 vars == <<ds, rt, now, rfail, ksbad, pending, rvars, svars, lastErr, nrounds, want, clean, dirty, nops, faulty, w0>>
 
 \* ---------------------------------------------------------------- records (pure operators)
+DErrStop == "Dev_X03_ErrStop"
+DStale == "Dev_X03_StaleRepublish"
+DTTL == "Dev_X03_TTLReset"
+
 NoRec == [kind |-> "none"]
 BadRec == [kind |-> "bad"]
 MkRec(v, s, e, t) == [kind |-> "rec", val |-> v, seq |-> s, eol |-> e, ttl |-> t]
@@ -68,9 +73,9 @@ Refresh(c, t) == MkRec(c.val, c.seq, MaxI(c.eol, t + L), c.ttl)
 \* Pick, at time t, under deviation set D
 CommitOut(c, s, t, D) ==
     IF ~IsRec(c) THEN [out |-> "err", rec |-> c]
-    ELSE IF "Stale" \notin D /\ c # s THEN [out |-> "skip", rec |-> c]    \* changed concurrently: its publisher refreshed it
-    ELSE LET src == IF "Stale" \in D THEN s ELSE c
-             r == PubResult(c, src.val, MaxI(src.eol, t + L), IF "TTLReset" \in D THEN DefTTL ELSE src.ttl)
+    ELSE IF DStale \notin D /\ c # s THEN [out |-> "skip", rec |-> c]    \* changed concurrently: its publisher refreshed it
+    ELSE LET src == IF DStale \in D THEN s ELSE c
+             r == PubResult(c, src.val, MaxI(src.eol, t + L), IF DTTL \in D THEN DefTTL ELSE src.ttl)
          IN [out |-> "go", rec |-> r.rec]
 
 \* ---------------------------------------------------------------- a whole round without interference (pure)
@@ -94,7 +99,7 @@ RoundFrom(w, i, t, rf, kb, canc, D, outs) ==
     IF i > Len(KeySeq) THEN [w |-> w, outs |-> outs]
     ELSE LET r == KeyStep(w, KeySeq[i], t, rf, kb, canc, D)
              o2 == Append(outs, [k |-> KeySeq[i], out |-> r.out])
-         IN IF IsErr(r.out) /\ "ErrStop" \in D THEN [w |-> r.w, outs |-> o2]
+         IN IF IsErr(r.out) /\ DErrStop \in D THEN [w |-> r.w, outs |-> o2]
             ELSE RoundFrom(r.w, i + 1, t, rf, kb, canc, D, o2)
 SeqRound(w, t, rf, kb, canc, D) == RoundFrom(w, 1, t, rf, kb, canc, D, <<>>)
 RoundErr(outs) == \E j \in 1..Len(outs) : IsErr(outs[j].out)
@@ -105,13 +110,14 @@ FirstTimer(t, iv) == t + MinI(Initial, iv)
 AfterFire(t, iv) == t + iv
 AfterRound(tm, t, err, iv) == IF err /\ FailRetry < iv THEN t + FailRetry ELSE tm
 
+W0None == [ds |-> [k \in Keys |-> NoRec], rt |-> [k \in Keys |-> NoRec], now |-> 0, rfail |-> {}, ksbad |-> {}, canc |-> FALSE]
 \* ---------------------------------------------------------------- initial state
 Init == /\ ds = [k \in Keys |-> NoRec] /\ rt = [k \in Keys |-> NoRec] /\ now = 0
         /\ rfail = {} /\ ksbad = {} /\ pending = {}
         /\ pc = "idle" /\ todo = {} /\ cur = Self /\ snap = NoRec /\ crec = NoRec /\ errs = {} /\ attempted = {}
         /\ running = FALSE /\ cancelled = FALSE /\ exited = FALSE /\ timer = 0 /\ lastErr = FALSE /\ nrounds = 0
         /\ want = [k \in Keys |-> "none"] /\ clean = FALSE /\ dirty = FALSE /\ nops = 0 /\ faulty = {}
-        /\ w0 = [ds |-> ds, rt |-> rt, now |-> 0, rfail |-> {}, ksbad |-> {}, canc |-> FALSE]
+        /\ w0 = W0None
 
 \* ---------------------------------------------------------------- the environment
 UserOp == /\ nops < MaxOps /\ nops' = nops + 1 /\ clean' = FALSE /\ dirty' = TRUE
@@ -151,12 +157,12 @@ Tick == /\ now < MaxT /\ now' = now + 1
 \* ---------------------------------------------------------------- one round (republishEntries)
 BeginRound == /\ pc = "idle" /\ pc' = "pick" /\ todo' = Keys /\ attempted' = {} /\ errs' = {}
               /\ dirty' = FALSE /\ clean' = FALSE
-              /\ w0' = [ds |-> ds, rt |-> rt, now |-> now, rfail |-> rfail, ksbad |-> ksbad, canc |-> cancelled]
+              /\ w0' = IF TrackW0 THEN [ds |-> ds, rt |-> rt, now |-> now, rfail |-> rfail, ksbad |-> ksbad, canc |-> cancelled] ELSE W0None
               /\ UNCHANGED <<cur, snap, crec>>
 
 \* key k failed: report it; IDEAL: go on with the other keys
 Fail(k) == /\ errs' = errs \cup {k} /\ pc' = "pick"
-           /\ todo' = IF "ErrStop" \in Devs THEN {} ELSE todo \ {k}
+           /\ todo' = IF DErrStop \in Devs THEN {} ELSE todo \ {k}
 
 Pick(k) ==
     /\ pc = "pick" /\ k \in todo /\ (Self \in todo => k = Self)
@@ -190,8 +196,9 @@ RoundEnd ==
     /\ lastErr' = (errs # {}) /\ nrounds' = nrounds + 1
     /\ clean' = (errs = {} /\ ~dirty /\ pending = {})
     /\ timer' = IF running THEN AfterRound(timer, now, errs # {}, Interval) ELSE timer
+    /\ w0' = W0None
     /\ UNCHANGED <<ds, rt, now, rfail, ksbad, pending, todo, cur, snap, crec, errs, attempted, running, cancelled, exited,
-                   want, dirty, nops, faulty, w0>>
+                   want, dirty, nops, faulty>>
 
 \* ---------------------------------------------------------------- Run: timer loop and cancellation
 Start == /\ UseRun /\ ~running /\ (Timely => now = 0) /\ running' = TRUE /\ timer' = FirstTimer(now, Interval)
@@ -269,7 +276,7 @@ ExitedQuiet == [][exited => UNCHANGED <<rvars, timer, nrounds>>]_vars
 
 \* P10 an undisturbed round of the step-wise model is exactly the pure SeqRound the generator replays
 SeqRoundMatches ==
-    (pc = "pick" /\ todo = {} /\ ~dirty) =>
+    (TrackW0 /\ pc = "pick" /\ todo = {} /\ ~dirty) =>
         LET r == SeqRound([ds |-> w0.ds, rt |-> w0.rt], w0.now, w0.rfail, w0.ksbad, w0.canc, Devs)
         IN r.w = [ds |-> ds, rt |-> rt] /\ (RoundErr(r.outs) <=> errs # {})
 
